@@ -9,8 +9,9 @@ REG = dict(
          "pairs), and every ordered triple of the 73 depth<=1 types over 3 leaves, is passed to the checker's real `unify` / `unify_all` (the function used for list and dict "
          "literals, if/else, try/catch and match arms). Whenever a combined type is returned it must be a supertype (real is_subtype) of every input, and combining equal types "
          "must return that type. Exhaustive within the depth bound.",
-    note="`None` (no join: the checker then reports a type error) is allowed by the statement. The call sites that feed unify (which expressions are combined) are not "
-         "enumerated here; they are exercised by C16. Error types excluded.",
+    note="`None` (no join: the checker then reports a type error) is allowed by the statement. The call sites (list and dict literals, if/else, else-if chains, try/catch, match "
+         "arms incl. wildcard arms) are enumerated over a pool of 20 typed atoms (all ordered pairs, triples of 8) and judged in the hook: the type the checker records for the "
+         "combining expression must be a supertype (real is_subtype) of the type it records for each part. Error types excluded.",
     design_ref="DESIGN.md §6 C15",
 )
 
@@ -19,6 +20,66 @@ def report(ctx, tot, universe):
     for f in tot["failures"]:
         sig = f"{f['law']} heads={'/'.join(f['heads'])}"
         ctx.violation(sig, {"law": f["law"], "types": f["types"], "note": f["extra"], "universe": universe})
+
+
+ATOMS = ["1", "n", '"s"', "s", "[]", "[1]", '["a"]', "None", "Some(1)", 'Some("a")', "o", "Unit", "True", "(1, 2)", 'throw("x")',
+         "fun(x: Int): Int { x }", "Red", "Pt{ x: 1 }", "l", "ls"]
+SMALL = ["1", '"s"', "[]", "[1]", "None", "Some(1)", 'throw("x")', "l"]
+PRELUDE = ("enum Color { Red, Green }\nstruct Pt { x: Int }\n"
+           "fun t(n: Int, s: String, o: Option<Int>, l: List<Int>, ls: List<String>) {\n  let r = @\n  r\n}\n")
+
+
+def constructs():
+    """(kind label, source of the combining expression) for every construct x every argument vector of the pools."""
+    import itertools
+    for a, b in itertools.product(ATOMS, repeat=2):
+        yield "list literal", f"[{a}, {b}]"
+        yield "dict literal", f'Dict["j" => {a}, "k" => {b}]'
+        yield "if/else", f"if True {{ {a} }} else {{ {b} }}"
+        yield "try/catch", f"try {{ {a} }} catch (e) {{ {b} }}"
+        yield "match Some/None", f"match o {{ Some(v) => {{ {a} }} None => {{ {b} }} }}"
+        yield "match Some/_", f"match o {{ Some(v) => {{ {a} }} _ => {{ {b} }} }}"
+        yield "match None/_", f"match o {{ None => {{ {a} }} _ => {{ {b} }} }}"
+        yield "match _/Some", f"match o {{ _ => {{ {a} }} Some(v) => {{ {b} }} }}"
+    for a, b, c in itertools.product(SMALL, repeat=3):
+        yield "list literal of three", f"[{a}, {b}, {c}]"
+        yield "match Some/None/_", f"match o {{ Some(v) => {{ {a} }} None => {{ {b} }} _ => {{ {c} }} }}"
+        yield "if/else if/else", f"if True {{ {a} }} else if False {{ {b} }} else {{ {c} }}"
+
+
+def call_sites(ctx):
+    """The places where the checker combines types: every construct over the atom pools, judged by the hook with the real is_subtype."""
+    progs = list(constructs())
+    srcs = [PRELUDE.replace("@", e) for _, e in progs]
+    jobs = [{"op": "combine_types", "srcs": srcs[i:i + 40]} for i in range(0, len(srcs), 40)]
+    res = ctx.pool.map(jobs, batch=1, timeout=300)
+    n_sites = combined_ok = combined_err = 0
+    kinds = set()
+    for j, r in zip(jobs, res):
+        if "results" not in r:
+            raise Machinery(f"combine_types job failed: {str(r)[:300]}")
+        for src, one in zip(j["srcs"], r["results"]):
+            if "sites" not in one:
+                raise Machinery(f"generated program does not check: {src!r} {str(one)[:200]}")
+            label = progs[srcs.index(src)][0]
+            for site in one["sites"]:
+                n_sites += 1
+                if site["combined_is_error"]:
+                    combined_err += 1
+                    continue
+                combined_ok += 1
+                kinds.add(site["kind"])
+                if site["not_covered"]:
+                    ctx.violation(f"{label}: the combined type does not cover a part", {"src": src, "site": site}, cli_cmd="garden check <file> (hover over the expression shows the combined type)")
+                elif site["equal_not_kept"]:
+                    ctx.violation(f"{label}: equal types are not combined to that same type", {"src": src, "site": site})
+    ctx.outcome("call sites: combined type reported", combined_ok)
+    ctx.outcome("call sites: no combined type (checker reports a type error)", combined_err)
+    ctx.bound("call_site_programs", len(progs))
+    if combined_ok < 500 or combined_err < 100 or len(kinds) < 5:
+        raise Machinery(f"vacuous call-site exploration: {combined_ok} combined, {combined_err} rejected, kinds {sorted(kinds)}")
+    ctx.sample({"src": srcs[5], "judged": "every list/dict literal, if/else, match and try/catch in it: combined type vs. the inferred type of each part"})
+    return len(progs), n_sites
 
 
 def run(ctx):
@@ -41,6 +102,9 @@ def run(ctx):
     ctx.outcome("triples with a join", t["related"])
     if t["count"] != 73 ** 3:
         raise Machinery("unify_all did not enumerate 73^3 triples")
+    n_prog, n_sites = call_sites(ctx)
+    states += n_prog
+    trans += n_sites
     ctx.add(states=states, transitions=trans, nontrivial=trans - states)
     ctx.sample({"pair": ["List<Int>", "List<NoValue>"], "law": "unify = List<Int>; both inputs are subtypes of it"})
     ctx.sample({"triple": ["Option<NoValue>", "Option<Int>", "Any"], "law": "unify_all result is a supertype of each"})
